@@ -477,7 +477,9 @@ class TraitSetObject(TraitSet):
         self.object = (lambda: None) if object is None else ref(object)
         self.name = name
         self.name_items = None
-        if trait.has_items:
+        # An object restored by __setstate__ (unpickled, copy.copy) has no
+        # trait; its __deepcopy__ passes that None on to the copy.
+        if trait is not None and trait.has_items:
             self.name_items = name + "_items"
 
         super().__init__(value, item_validator=self._validator,
